@@ -79,6 +79,25 @@ func vInstallSnapshot(w int, faults bool) {
 		return
 	}
 	vAssert(post.term == req.Term && vImplies(req.Term > pre.term, post.state == Follower), "C01.install.term-adopted")
+	if si < pre.snapIdx {
+		// a delayed or duplicated request for a snapshot that ends before the follower's own snapshot carries nothing new:
+		// nothing may move backwards (the log has been compacted against the newer snapshot, so the entries in between
+		// would be in neither the snapshot nor the log) - finding D12, fixed
+		vCover("install.older-than-own-snapshot")
+		frame := post.applied == pre.applied && post.snapIdx == pre.snapIdx && post.snapTerm == pre.snapTerm && nRestore == 0 && post.storeCalls == pre.storeCalls && post.latestIndex == pre.latestIndex
+		vAssert(frame, "C02.install.snapshot-older-than-own-is-ignored")
+		vAssert(frame, "C11.install.older-snapshot-never-replaces-newer")
+		vAssert(frame, "C10.install.older-snapshot-never-replaces-newer")
+		closed := false
+		for _, c := range env.snaps.calls {
+			if c.op == opSnapClose && c.ok {
+				closed = true
+			}
+		}
+		vAssert(!closed, "C11.install.older-snapshot-not-made-durable")
+		vReach("install.end")
+		return
+	}
 	if out.Error == nil || resp.Success || len(env.snaps.calls) > 0 {
 		// past the version/term checks the sender of this very request is recorded as leader
 		vAssert(post.leaderAddr == ServerAddress(req.Addr) && post.leaderID == ServerID(req.ID), "C18.install.leader-hint-from-request")
